@@ -14,6 +14,7 @@ import (
 
 func init() {
 	vfRegisterBubble("HarnessC19_Stack", HarnessC19_Stack)
+	vfRegisterBubble("HarnessC19_Evict", HarnessC19_Evict)
 	vfRegister("HarnessC19_Versions", HarnessC19_Versions)
 	vfRegister("HarnessC19_JumpHash", HarnessC19_JumpHash)
 }
@@ -191,4 +192,78 @@ func HarnessC19_JumpHash() {
 	vfAssert(vfAnd(b2 >= 0, int(b2) < n+1), "C19 jump hash result is in [0, n+1)")
 	vfAssert(vfOr(b2 == b1, int(b2) == n), "C19 appending one server moves a key only to the new server, if at all")
 	vfCover("c19-jump-done")
+}
+
+
+// HarnessC19_Evict: the shared backend may lose an entry at any time (memcached
+// evicts) while the in-memory layer still holds it. Scenario skeleton with
+// symbolic TTLs: store, backend eviction, a second store operation of any kind,
+// time passes, read - the read never yields anything but the most recently
+// stored value.
+func HarnessC19_Evict() {
+	lruSize := 1 + vfChoice("lrusize", 2)
+	defTTL := vfSecs("default_ttl")
+	now := vfEpoch
+	vfSetNow(now)
+	mock := NewMockCache()
+	logger := log.NewNopLogger()
+	order := vfChoice("stack", vfParam("stacks", 3))
+	perms := [][]byte{{'S', 'V', 'L'}, {'S', 'L', 'V'}, {'L', 'V', 'S'}, {'V', 'S', 'L'}, {'L', 'S', 'V'}, {'V', 'L', 'S'}}
+	var c Cache = mock
+	var below Cache // what sits directly below the in-memory layer
+	for _, w := range perms[order] {
+		switch w {
+		case 'S':
+			c = NewSnappy(c, logger)
+		case 'V':
+			c = NewVersioned(c, 1, logger)
+		case 'L':
+			below = c
+			l, err := WrapWithLRUCache(c, "t", nil, lruSize, time.Duration(defTTL)*time.Second, logger)
+			vfAssert(err == nil, "C19 LRU wrapper is created")
+			c = l
+		}
+	}
+	_ = below
+	ctx := context.Background()
+	ttl1, ttl2 := vfSecs("ttl1"), vfSecs("ttl2")
+	vfAssert(c.Set(ctx, "k1", vfValues[0], time.Duration(ttl1)*time.Second) == nil, "C19 Set succeeds")
+	last, lastT, lastTTL := 0, now, ttl1
+	if vfChoice("other_key", 2) == 1 {
+		vfAssert(c.Set(ctx, "k2", vfValues[2], time.Hour) == nil, "C19 Set succeeds")
+	}
+	// the backend loses everything it holds (eviction / restart of the cache server)
+	if vfChoice("evict", 2) == 1 {
+		mock.Flush()
+	}
+	stored := true
+	switch vfChoice("second_op", 4) {
+	case 0:
+		if err := c.Add(ctx, "k1", vfValues[3], time.Duration(ttl2)*time.Second); err == nil {
+			last, lastT, lastTTL = 3, now, ttl2
+		} else {
+			vfAssert(err == ErrNotStored, "C19 Add fails only with ErrNotStored")
+		}
+	case 1:
+		vfAssert(c.Set(ctx, "k1", vfValues[3], time.Duration(ttl2)*time.Second) == nil, "C19 Set succeeds")
+		last, lastT, lastTTL = 3, now, ttl2
+	case 2:
+		c.SetAsync("k1", vfValues[3], time.Duration(ttl2)*time.Second)
+		last, lastT, lastTTL = 3, now, ttl2
+	case 3:
+		vfAssert(c.Delete(ctx, "k1") == nil, "C19 Delete succeeds")
+		stored = false
+	}
+	d := vfSecs("advance")
+	mock.Advance(time.Duration(d) * time.Second)
+	vfAdvance(time.Duration(d) * time.Second)
+	now += d
+	res := c.GetMulti(ctx, []string{"k1"})
+	if data, ok := res["k1"]; ok {
+		vfAssert(stored, "C19 a read never yields a deleted entry")
+		vfAssert(string(data) == string(vfValues[last]), "C19 a read yields the most recently stored value also after the backend lost its copy")
+		vfAssert(now < lastT+lastTTL, "C19 a read never yields an entry after its time-to-live (no back-fill happened)")
+		vfCover("c19-evict-hit")
+	}
+	vfCover("c19-evict-done")
 }
